@@ -31,7 +31,8 @@ func lookupFlow[T any](urlTree *URLTree[T], url string) lookupFlowNodeResult[T] 
 	var part urlPart
 	for index, part = range splitURL {
 		log.Trace().Msgf("lookupFlowNodeResult::Looking up part %v", part)
-		if currentNode.WildcardChild != nil && currentNode.WildcardChild.hasValue() {
+		if currentNode.WildcardChild.wildcardCovers(part, index == 0) &&
+			currentNode.WildcardChild.hasValue() {
 			flows = append(flows, *currentNode.WildcardChild.Value)
 		}
 
